@@ -110,12 +110,13 @@ Definition tf_width (x0 x1 sx sk_l sk_r ifm_w : Z) (split : option (Z * Z)) : Z 
    returns (start, end, pad_top, pad_bottom) *)
 Definition tf_height (y0 y1 oy1 sy sk_t sk_b ifm_h up kdh : Z) : Z * Z * Z * Z :=
   let rem := sk_t mod up in
-  let total_stride := sy * (y1 - y0 - 1) in
+  (* the last kernel position is that of the unclipped OFM end oy1 (the OFM can be taller than the IFM) *)
+  let total_stride := sy * (oy1 - y0 - 1) in
   let ns := y0 * sy - sk_t + rem in
   let pad_top := Z.max 0 (0 - ns) + rem in
   let ns1 := Z.max ns 0 in
   let pad_bottom :=
-    if ifm_h * up <? y1 * sy + sk_b then
+    if ifm_h * up <? oy1 * sy + sk_b then
       if negb (up =? 1) && (ifm_h * up <? oy1) then oy1 - ifm_h * up
       else Z.max 0 (ns1 - pad_top + total_stride + kdh - ifm_h * up)
     else 0 in
@@ -228,8 +229,10 @@ Definition gen_ofm_boxes (ofm_start ofm_end : c4) (step_h step_w : Z) (slices : 
        (stripes_1d (ch ofm_start) (ch ofm_end) step_h)).
 
 (* ------------------------------------------------------------------ (vi) rolling buffers and tile addresses *)
-Definition rolling_buffer_shape (p_h p_w p_d c_h c_w : Z) : Z * Z * Z * Z :=
-  (1, round_up (p_h + c_h) c_h, Z.max p_w c_w, round_up p_d 16).
+(* rolling_buffer_shape(producer_stripe, consumer_stripe_input, consumer_ifm_rows): tall enough for the IFM box of a consumer
+   stripe (consumer_ifm_rows) plus what the producer may run ahead (one producer stripe less one row) *)
+Definition rolling_buffer_shape (p_h p_w p_d c_h c_w rows : Z) : Z * Z * Z * Z :=
+  (1, Z.max (round_up (p_h + c_h) c_h) (p_h + rows - 1), Z.max p_w c_w, round_up p_d 16).
 
 Definition FMT_NHWC : Z := 1.
 Definition FMT_NHCWB16 : Z := 2.
@@ -457,8 +460,11 @@ Definition cascade_events (g : geom) (hc hp : Z) :=
 (* stripe_input.height of the consumer (scheduler.create_scheduler_info) and the rolling buffer height *)
 Definition stripe_input_h (g : geom) (hc : Z) : Z :=
   Z.min (required_size hc (g_s g) (g_kd g) 1 0) (g_in g).
+(* cascade_builder.stripe_ifm_rows: the most IFM rows the box of one consumer stripe spans *)
+Definition stripe_ifm_rows (g : geom) (hc : Z) : Z :=
+  Z.max (Z.min (hc * g_s g + g_sk_t g + g_sk_b g) (g_in g)) (stripe_input_h g hc).
 Definition buffer_h (g : geom) (hc hp : Z) : Z :=
-  let '(_, h, _, _) := rolling_buffer_shape hp 1 1 (stripe_input_h g hc) 1 in h.
+  let '(_, h, _, _) := rolling_buffer_shape hp 1 1 (stripe_input_h g hc) 1 (stripe_ifm_rows g hc) in h.
 
 (* run the events on the buffer: producer stripes write their rows, a consumer stripe needs every row of its IFM box;
    returns false at the first consumer stripe that finds a row of its box overwritten *)
